@@ -2,6 +2,7 @@ package main
 
 import (
 	"fmt"
+	"go/ast"
 	"go/token"
 	"go/types"
 	"math/big"
@@ -19,6 +20,164 @@ func u8slice(t types.Type) bool { return bytesLike(t) }
 // G1 (func(b bytes, ...) (..., int, error): err == nil => 0 <= n <= len(b)) and G3 (bytes-like results are no
 // longer than the bytes-like first parameter on ok returns).
 func (e *BE) contractFor(fn *ssa.Function) *Contract {
+	c := e.contractBase(fn)
+	if fn == nil {
+		return c
+	}
+	g := fn
+	if g.Origin() != nil {
+		g = g.Origin()
+	}
+	extra := e.inferred[g]
+	if len(extra) == 0 {
+		return c
+	}
+	// inferred preconditions of a private helper (inferPre): proved at every call site, assumed in the body
+	nc := &Contract{Note: "inferred preconditions"}
+	if c != nil {
+		cp := *c
+		nc = &cp
+		nc.Pre = append([]CIneq{}, c.Pre...)
+	}
+	for _, p := range extra {
+		nc.Pre = append(nc.Pre, p.ineq)
+	}
+	return nc
+}
+
+// inferredPre: a candidate precondition of a private function, with its description.
+type inferredPre struct {
+	ineq CIneq
+	desc string
+}
+
+// inferPre finds preconditions of private helpers by the greatest-fixpoint (Houdini) scheme: start from all
+// candidates  p >= 0  and  p <= len(q)  (p an int parameter, q a bytes-like parameter) for every unexported function
+// of the cone whose every use is a static call inside the module, and drop a candidate as soon as some call site
+// cannot prove it under the candidates still standing. What survives is assumed in the helper's body and is an
+// obligation (kind "pre") at each of its call sites, so the verification stays modular and sound.
+func (e *BE) inferPre(cone []*ssa.Function, module []*ssa.Function) []string {
+	inCone := map[*ssa.Function]bool{}
+	for _, f := range cone {
+		inCone[f] = true
+	}
+	// call sites and escaping uses
+	sites := map[*ssa.Function][]*ssa.Call{}
+	callerOf := map[*ssa.Call]*ssa.Function{}
+	escapes := map[*ssa.Function]bool{}
+	for _, f := range module {
+		withAnon(f, func(g *ssa.Function) {
+			allInstrs(g, func(i ssa.Instruction) {
+				var callee *ssa.Function
+				if c, ok := i.(ssa.CallInstruction); ok {
+					callee = c.Common().StaticCallee()
+					if cv, ok := i.(*ssa.Call); ok && callee != nil {
+						sites[callee] = append(sites[callee], cv)
+						callerOf[cv] = g
+					} else if callee != nil {
+						escapes[callee] = true // go / defer: treated as unknown context
+					}
+				}
+				for _, op := range i.Operands(nil) {
+					if op == nil || *op == nil {
+						continue
+					}
+					if fv, ok := (*op).(*ssa.Function); ok && fv != callee {
+						escapes[fv] = true
+					}
+				}
+			})
+		})
+	}
+	e.inferred = map[*ssa.Function][]inferredPre{}
+	for _, f := range cone {
+		if f.Parent() != nil || f.Origin() != nil || escapes[f] || len(sites[f]) == 0 || !token.IsIdentifier(f.Name()) || ast.IsExported(f.Name()) {
+			continue
+		}
+		if c := e.contractBase(f); c != nil && len(c.Pre) > 0 {
+			continue // has a declared precondition already
+		}
+		var cands []inferredPre
+		for i, p := range f.Params {
+			b, ok := p.Type().Underlying().(*types.Basic)
+			if !ok || b.Kind() != types.Int {
+				continue
+			}
+			cands = append(cands, inferredPre{cGE(cP(i), cK(0)), fmt.Sprintf("%s >= 0", p.Name())})
+			for j, q := range f.Params {
+				if bytesLike(q.Type()) {
+					cands = append(cands, inferredPre{cLE(cP(i), cLenP(j)), fmt.Sprintf("%s <= len(%s)", p.Name(), q.Name())})
+				}
+			}
+		}
+		if len(cands) > 0 {
+			e.inferred[f] = cands
+		}
+	}
+	for round := 0; round < 6; round++ {
+		changed := false
+		ctxs := map[*ssa.Function]*fnCtx{}
+		for _, f := range sortedFuncs(e.inferred) {
+			var keep []inferredPre
+			for _, cand := range e.inferred[f] {
+				ok := true
+				for _, call := range sites[f] {
+					caller := callerOf[call]
+					fc := ctxs[caller]
+					if fc == nil {
+						fc = e.newFnCtx(caller)
+						ctxs[caller] = fc
+					}
+					env := &cenv{e: e, params: call.Call.Args}
+					goal, good := func() (q Ineq, good bool) {
+						defer func() {
+							if recover() != nil {
+								good = false
+							}
+						}()
+						return cand.ineq(env), true
+					}()
+					budget := 300
+					if !good || !fc.prove(goal, call.Block(), nil, nil, 5, &budget) {
+						ok = false
+						break
+					}
+				}
+				if ok {
+					keep = append(keep, cand)
+				} else {
+					changed = true
+				}
+			}
+			if len(keep) == 0 {
+				delete(e.inferred, f)
+			} else {
+				e.inferred[f] = keep
+			}
+		}
+		if !changed {
+			break
+		}
+	}
+	var out []string
+	for _, f := range sortedFuncs(e.inferred) {
+		for _, p := range e.inferred[f] {
+			out = append(out, fnKey(f)+": "+p.desc)
+		}
+	}
+	return out
+}
+
+func sortedFuncs(m map[*ssa.Function][]inferredPre) []*ssa.Function {
+	var fs []*ssa.Function
+	for f := range m {
+		fs = append(fs, f)
+	}
+	sort.Slice(fs, func(i, j int) bool { return fnKey(fs[i]) < fnKey(fs[j]) })
+	return fs
+}
+
+func (e *BE) contractBase(fn *ssa.Function) *Contract {
 	if fn == nil {
 		return nil
 	}
